@@ -657,7 +657,10 @@ func miscTOCs() [][2]string {
 		{"toc-entry-name", `{"version":1,"entries":[{"name":"stargz.index.json","type":"reg","size":1},{"name":".prefetch.landmark","type":"reg","size":1},{"name":".no.prefetch.landmark","type":"reg","size":1}]}`},
 		{"landmark-dir", `{"version":1,"entries":[{"name":".prefetch.landmark","type":"dir"},{"name":".no.prefetch.landmark","type":"hardlink","linkName":".prefetch.landmark"}]}`},
 		{"whiteouts", `{"version":1,"entries":[{"name":".wh..wh..opq","type":"reg"},{"name":"a/.wh..wh..opq","type":"dir"},{"name":".wh.","type":"reg"},{"name":".wh.a","type":"hardlink","linkName":"a"}]}`},
-		{"hardlink-chain-200", hardlinkChain(200)}, {"hardlink-to-missing-dir-child", `{"version":1,"entries":[{"name":"a","type":"hardlink","linkName":"x/y/z"}]}`},
+		{"hardlink-chain-200", hardlinkChain(200)},
+		{"hardlink-tail-into-cycle", `{"version":1,"entries":[{"name":"t","type":"hardlink","linkName":"x"},{"name":"x","type":"hardlink","linkName":"y"},{"name":"y","type":"hardlink","linkName":"x"}]}`},
+		{"hardlink-tail-into-self-link", `{"version":1,"entries":[{"name":"t","type":"hardlink","linkName":"x"},{"name":"x","type":"hardlink","linkName":"x"}]}`},
+		{"root-hardlink-tail-into-cycle", `{"version":1,"entries":[{"name":"x","type":"reg"},{"name":"","type":"hardlink","linkName":"y"},{"name":"y","type":"hardlink","linkName":"z"},{"name":"z","type":"hardlink","linkName":"y"}]}`}, {"hardlink-to-missing-dir-child", `{"version":1,"entries":[{"name":"a","type":"hardlink","linkName":"x/y/z"}]}`},
 		{"file-then-child", `{"version":1,"entries":[{"name":"a","type":"reg"},{"name":"a/b","type":"reg"},{"name":"a/b/c","type":"dir"}]}`},
 		{"dir-redefined-as-file", `{"version":1,"entries":[{"name":"a/b","type":"reg"},{"name":"a","type":"reg"},{"name":"a","type":"dir"},{"name":"a","type":"symlink","linkName":"a"}]}`},
 	}
